@@ -189,6 +189,8 @@ Definition judge_cut (c o : sexp) : verdict :=
         if in_dom t && negb (groups_eqb bags want)
         then VOracle ("the bags are not the groups of tips joined by branches shorter than the threshold; expected "
                       ++ show_groups want)
+        else if in_dom t && negb (bags_are_classes maxlen t bags)
+        then VOracle "two tips are in the same bag without being joined by a path of short branches, or conversely"
         else
           let mb := cut maxlen t in
           if negb (list_eqb (list_eqb String.eqb) mb bags) then VCorr ("model bags: " ++ show_groups mb)
